@@ -24,6 +24,7 @@ func runC04(c *Ctx) {
 	c.Rule("C04.O1", "E4", "in Write/Writev/Sendfile every path from an enqueue to the release of Conn.mux passes the arm function, unless it takes the queue-empty edge, the enqueue is on the queue-non-empty edge, or the path ends in teardown", 3)
 	c.Rule("C04.O2", "E4,E1", "every call of the disarm function holds Conn.mux and is dominated by the queue-empty edge", 2)
 	c.Rule("C04.O3", "E4", "a store to isWAdded sits in the block of the matching epoll_ctl call, behind the !closed test (addDialer: pre-publication exception)", 3)
+	c.Rule("C04.O16", "E4,E1", "the converse of O3: the poller-level read-only registration (resetRead) is issued only next to isWAdded = false, or by the one-shot re-arm that decides by the queue (queue-empty edge under Conn.mux); nothing else takes write interest away and leaves the flag set", 2)
 	c.Rule("C04.O4", "E9", "setReadWrite always registers EPOLLOUT|EPOLLIN|error flags (+EPOLLET in ET mode); setRead registers EPOLLIN|error flags and EPOLLOUT exactly in the ET-without-ONESHOT ADD", 6)
 	c.Rule("C04.O5", "E4,E5", "flush is called only from the poller loop, on the write-event edge", 1)
 	c.Rule("C04.O6", "E4,E1", "ResetPollerEvent re-arms read+write exactly on the queue-non-empty edge and reads closed/writeList under Conn.mux", 1)
@@ -211,6 +212,33 @@ func runC04(c *Ctx) {
 				bad = "the flag changes without the !closed test"
 			}
 			c.Cond(bad == "", "C04.O3", key, c.Pos(st), "flag and registration move together", bad)
+		}
+	}
+
+	// ------------------------------------------------------------------ O16: the converse of O3
+	for _, f := range c.nbioFuncs() {
+		fi := c.P.Info(f)
+		n := 0
+		for _, cs := range c.P.CallsNamed(f, "(*nbio.poller).resetRead") {
+			n++
+			key := c.siteKey(f, "read-only registration", n)
+			paired := false
+			for _, in := range cs.In.Block().Instrs {
+				if st, ok := in.(*ssa.Store); ok {
+					if fa, ok := st.Addr.(*ssa.FieldAddr); ok && c.P.FieldKey(fa) == fConnIsWAdded {
+						if v, isC := ir.ConstBool(st.Val); isC && !v {
+							paired = true
+						}
+					}
+				}
+			}
+			if paired {
+				c.OK("C04.O16", key, c.Pos(cs.In), "paired with isWAdded = false in the same block")
+				continue
+			}
+			byQueue := L.HeldClass(cs.In, fConnMux) && fi.HasFact(cs.In, func(ft ir.Fact) bool { e, ok := c.queueTest(ft); return ok && e })
+			c.Cond(byQueue, "C04.O16", key, c.Pos(cs.In), "decided by the queue-empty edge under Conn.mux (one-shot re-arm)",
+				"the registration is reduced to read-only at "+c.Pos(cs.In)+" while isWAdded keeps saying that write interest is registered (no isWAdded = false next to it, and not the queue-decided re-arm under Conn.mux): every later arm step is skipped as 'already armed' and a backlog is never flushed")
 		}
 	}
 
